@@ -137,6 +137,9 @@ def run(ctx, bt):
     scale_twins(ctx, bt, ctx.scale(25, 500))
     from ..runs_run import run_steps_protocol
     run_steps_protocol(ctx, bt, ctx.scale(12, 300), FOOT_FIELDS, "run-steps[C03]")
+    from .. import whole_run as W
+    # complete backtests of program trees (flat and nested, shadow copies included) executed end to end by the model
+    W.whole_run_protocol(ctx, bt, ctx.scale(15, 300), "whole-run[C03]", footprint_fields=FOOT_FIELDS)
 
 
 def search(ctx, bt):
